@@ -36,6 +36,7 @@ REQUIRED_THEOREMS = [
     # extension round X3: composition with the sampler (C05) and the streaming statistics (C13)
     "C08_born_stationary", "C08_unbiased_stationary", "C08_unbiased_stationary_pos", "C08_unbiased_stationary_mixed",
     "C08_statistics_mean_generic", "C08_unbiased_statistics", "C08_unbiased_statistics_mixed",
+    "C08_unbiased_statistics_pos", "C08_unbiased_absolute", "C08_sigmaY_real_state_zero", "C08_sigmaY_pos_zero",   # late theorems L4
 ]
 THEOREMS = {
     "sigmaX": "C08_sigmaX (+ C08_represents_pure/_mixed, C08_no_mutation: run = map of the per-sample value)",
